@@ -16,8 +16,9 @@ disagree with it).  States and transition numbers of the E30 communication state
 | 10 / 15 | WAIT CR FROM HOST, WAIT CRA, WAIT DELAY | S1F13 received, S1F14 with COMMACK = 0 sent | COMMUNICATING | |
 | 14 | COMMUNICATING | communication failure | NOT COMMUNICATING | |
 
-Besides the table this file fixes the *vocabulary of observation* (inputs, outputs, observed steps) and states the four
-clauses of the property over observed traces only — no model state occurs in them.
+Besides the table this file fixes the *vocabulary of observation* (inputs, outputs, observed steps) and states clause 1 of
+the property ("established only after a completed exchange with COMMACK 0 on the current link") over observed traces only —
+no model state occurs in `Completes` / `Justified`.
 -/
 namespace SecsModel.Spec.E30Comm
 
